@@ -2,7 +2,7 @@
 From Coq Require Import Permutation Lia QArith Lqa.
 From SKN Require Import Base.Util Model.Dendrogram Model.Cuts Model.Hierarchy Model.Paris Proofs.DendroBase
      Proofs.HierarchyBase Proofs.HierarchyProofs Proofs.GetDendrogramProofs Proofs.TreeBuildProofs Proofs.SplitProofs
-     Proofs.ParisProofs Proofs.ParisReducible Gen.ParisSrc.
+     Proofs.ParisProofs Proofs.ParisReducible Proofs.ParisTotal Gen.ParisSrc.
 Close Scope Q_scope.
 
 (** What the property demands of one dendrogram attribute over n nodes: it is valid (n - 1 rows, row t merges two
@@ -87,6 +87,19 @@ Proof.
   exists D'. split; [exact E|]. split; [now apply good_of_valid_sorted | exact Hp].
 Qed.
 
+(** Total version: on every admissible input the exact model ends normally within its fuel (never KeyError, never out
+    of fuel), its rows are a valid dendrogram, and with reorder = True the output is a good dendrogram. *)
+Theorem paris_exact_total_valid hinf n G wout win :
+  1 <= n -> graph_ok n G -> weights_ok n wout -> weights_ok n win ->
+  exists D m t, paris_core exact false hinf n G wout win = Some (Ok (D, m, t)) /\ valid n D = true /\
+    ((forall r, In r D -> (r_height r <= hinf)%Q) ->
+     exists D', reorder_dendrogram D = Ok D' /\ good_dendrogram n D' /\ Permutation (merge_view n D) (merge_view n D')).
+Proof.
+  intros Hn HG Ho Hi. destruct (paris_total hinf n G wout win Hn HG Ho Hi) as (D & m & t & Hrun).
+  exists D, m, t. split; [exact Hrun|]. split; [exact (paris_rows_valid exact false hinf n G wout win D m t Hrun)|].
+  intros Hinf. exact (paris_exact_valid hinf n G wout win D m t HG Ho Hi Hrun Hinf).
+Qed.
+
 (** The proposed repair of D25 (clamped heights), for ANY rounding: valid and sorted after reordering. *)
 Theorem paris_clamped_valid R hinf n G wout win D m t :
   paris_core R true hinf n G wout win = Some (Ok (D, m, t)) ->
@@ -156,4 +169,5 @@ Print Assumptions louvain_hierarchy_valid.
 Print Assumptions louvain_iteration_valid.
 Print Assumptions paris_exact_valid.
 Print Assumptions paris_clamped_valid.
+Print Assumptions paris_exact_total_valid.
 Print Assumptions split_vars_valid.
